@@ -546,6 +546,12 @@ func callEvents(p *Program) func(in ssa.Instruction, ps *pathState) (Event, bool
 			if fa, ok := x.Addr.(*ssa.FieldAddr); ok {
 				return Event{Kind: "store", Name: fieldName(fa), Val: t.Term(x.Val, ps), Base: t.Term(fa.X, ps)}, true
 			}
+			if ia, ok := x.Addr.(*ssa.IndexAddr); ok {
+				return Event{Kind: "store", Name: "[]", Val: t.Term(x.Val, ps), Base: t.Term(ia.X, ps) + "[" + t.Term(ia.Index, ps) + "]"}, true
+			}
+			if fv, ok := x.Addr.(*ssa.FreeVar); ok {
+				return Event{Kind: "store", Name: "fv:" + fv.Name(), Val: t.Term(x.Val, ps), Base: ""}, true
+			}
 		}
 		return Event{}, false
 	}
